@@ -36,7 +36,9 @@ def cases(draw, big=False):
     return {'spec': spec, 'masks': masks, 'fold_bn': draw(st.booleans()),
             'wseed': draw(st.integers(0, 50)), 'vseed': draw(st.integers(0, 50)),
             'costs': costs, 'dict': as_dict, 'full_cost': draw(st.booleans()),
-            'reassign_spec': draw(st.booleans())}
+            'reassign_spec': draw(st.booleans()),
+            # the architecture is frozen after the search (fine-tuning phase) before the cost is read
+            'freeze': draw(st.sampled_from([None, None, 'train_net_only', 'train_features']))}
 
 
 def _spec_obj(name):
@@ -131,6 +133,10 @@ def oracle(case) -> Result:
         # metric is added or swapped in the middle of a search - must not change any value
         must(res, 'cost_specification-setter', setattr, pit, 'cost_specification',
              {n: _spec_obj(n) for n in names} if case['dict'] else _spec_obj(names[0]))
+    if case.get('freeze') == 'train_net_only':
+        must(res, 'train_net_only', pit.train_net_only)
+    elif case.get('freeze') == 'train_features':
+        must(res, 'train_features-setter', setattr, pit, 'train_features', False)
     pit.discrete_cost = True
     exported = must(res, 'export', pit.export)
     if exported is None:
